@@ -1213,6 +1213,116 @@ Section Oracle.
       intros Hnf Hs Hp. rewrite Y8; assumption.
   Qed.
 
+
+  (* write_uncompressed's copies: every slice read from the window lies inside it *)
+  Lemma unc_copies_spec p d : wf_p p -> lzinv p d -> forall fuel u tr,
+    0 <= u <= read_pos d + 1 -> u <= 65536 * (Z.of_nat fuel - 1) ->
+    okor (unc_copies fuel p d u tr) (fun tr1 => acct tr1 = acct tr).
+  Proof.
+    intros W [[Ha Hb] Hc [Hd He] [Hf Hg] Hpb]. pose proof (wf_i32 p W) as Hi.
+    induction fuel as [|f IH]; intros u tr Hu Hfu; [lia|].
+    cbn [unc_copies].
+    destruct (Z.leb_spec u 0); [cbn [okor]; reflexivity|].
+    unfold copy_uncompressed, COMPRESSED_SIZE_MAX.
+    rewrite ck_i32_ok by (unfold I32_MIN, I32_MAX in *; lia). cbn [obind].
+    rewrite as_i32_id by (unfold I32_MIN, I32_MAX in *; lia).
+    rewrite ck_i32_ok by (unfold I32_MIN, I32_MAX in *; lia). cbn [obind].
+    destruct (Z.ltb_spec (read_pos d + 1 - u) 0); [lia|].
+    destruct (Z.ltb_spec (buf_size p) (read_pos d + 1 - u + Z.min u 65536)); [lia|].
+    cbn [obind fst snd].
+    eapply okor_weaken; [apply IH; lia|].
+    intros tr1 E. rewrite E. reflexivity.
+  Qed.
+
+  (* the state of an LZMA2Writer, tied to the event trace *)
+  Record l2inv (p : lzp) (org : Z) (s : l2st PS) : Prop := mkL2inv {
+    l2i_p : l2_p _ s = p;
+    l2i_new : l2_new _ s = Ok (p, enc0);
+    l2i_e : einv p org (l2_e _ s) (l2_tr _ s);
+    l2i_pend : l2_pending _ s = sum_fill (l2_tr _ s) - sum_chunk (l2_tr _ s);   (* accepted, not yet in a chunk *)
+    l2i_unc : l2_unc _ s = sum_chunk (l2_tr _ s) - Z.max org 0;                 (* chunked since the last independent start *)
+    l2i_big : sum_fill (l2_tr _ s) <= 4611686018427387904;                      (* 2^62: no u64 overflow of the byte counters *)
+    l2i_cnn : 0 <= sum_chunk (l2_tr _ s)
+  }.
+
+  (* what the LZMA2 writer needs of the window: a nearly full incompressible chunk plus what the
+     parser has read ahead must survive a window move *)
+  Definition l2_hist_ok (p : lzp) : Prop := COMPRESSED_SIZE_MAX + mode_before p <= keep_before p.
+
+  Lemma l2_pending_cap p org s : l2inv p org s ->
+    l2_pending _ s = unc_size (l2_e _ s) + (write_pos (e_lz (l2_e _ s)) - pidx (l2_e _ s)).
+  Proof.
+    intros [_ _ I Hp _ _ _]. pose proof (ei_fill _ _ _ _ I). pose proof (ei_chunk _ _ _ _ I).
+    rewrite logical_pidx in *. lia.
+  Qed.
+
+  Lemma write_chunk_spec p org s : wf_p p -> l2_hist_ok p -> l2inv p org s ->
+    1 <= unc_size (l2_e _ s) <= UNC_BOUND p ->
+    okor (write_chunk PS chunkc s) (fun s1 =>
+      l2inv p org s1 /\ l2_chunk _ s1 = l2_chunk _ s /\
+      e_lz (l2_e _ s1) = e_lz (l2_e _ s) /\ g_base (l2_e _ s1) = g_base (l2_e _ s) /\
+      unc_size (l2_e _ s1) = 0 /\ rc_full (l2_e _ s1) = false /\
+      (read_ahead (l2_e _ s1) = read_ahead (l2_e _ s) \/ read_ahead (l2_e _ s1) = -1) /\
+      sum_fill (l2_tr _ s1) = sum_fill (l2_tr _ s) /\
+      sum_chunk (l2_tr _ s) < sum_chunk (l2_tr _ s1) /\ l2_pending _ s1 < l2_pending _ s).
+  Proof.
+    intros W HH L Hunc. pose proof W as [W1 W2 W3 W4 W5 W6 W7 W8 W9 W10].
+    pose proof L as [Lp Ln I Lpend Lunc Lbig Lcnn].
+    pose proof I as [[[Ha Hb] Hc [Hd He] [Hf Hg] Hpb] [Hr1 Hr2] Hmb [Hb1 Hb2] Hh Hdict Hpx Hu HU Hfill Hsym Hchunk Horg].
+    pose proof (l2_pending_cap p org s L) as Hpc.
+    unfold write_chunk. rewrite Lp.
+    destruct (chunkc (l2_ps PS s) (unc_size (l2_e PS s))) as [c ps1].
+    destruct (Z.ltb_spec c 1); [cbn [orb okor]; right; reflexivity|].
+    destruct (Z.ltb_spec COMPRESSED_SIZE_MAX (c + 2)); [cbn [orb okor]; right; reflexivity|].
+    destruct (Bool.eqb (rc_full (l2_e PS s)) (LZMA2_COMPRESSED_LIMIT <? c)); [|cbn [orb negb okor]; right; reflexivity].
+    cbn [orb negb].
+    destruct (Z.ltb_spec (unc_size (l2_e PS s)) 1); [lia|].
+    set (e := l2_e PS s) in *. set (tr := l2_tr PS s) in *.
+    destruct (Z.ltb_spec (c + 2) (unc_size e)) as [Hlz|Hfb].
+    - (* LZMA chunk *)
+      cbn [obind].
+      rewrite ck_u32_ok by (unfold U32_MAX, I32_MAX, pidx in *; lia). cbn [obind].
+      rewrite ck_u64_ok by (unfold U64_MAX, UNC_BOUND, SYM_MAX, LZMA2_UNCOMPRESSED_LIMIT, I32_MAX, pidx in *; lia). cbn [obind okor].
+      cbn [l2_chunk l2_e l2_tr l2_pending e_lz g_base unc_size rc_full read_ahead sum_fill sum_chunk].
+      split.
+      { constructor; cbn [l2_p l2_new l2_e l2_tr l2_pending l2_unc sum_fill sum_chunk]; try assumption; try reflexivity; try lia.
+        constructor; unfold pidx, logical_pos in *; cbn [e_lz read_ahead unc_size g_base rc_full sum_fill sum_sym sum_abs sum_chunk];
+          try assumption; try lia; try (split; assumption); try exact (ei_lz _ _ _ _ I). }
+      repeat split; try reflexivity; try lia; try (left; reflexivity).
+    - (* uncompressed fallback *)
+      unfold enc_reset.
+      rewrite ck_i32_ok by (unfold I32_MIN, I32_MAX in *; lia). cbn [obind].
+      rewrite as_u32_id by (unfold U32_MAX, I32_MAX in *; lia).
+      assert (HU' : unc_size e + (read_ahead e + 1) <= read_pos (e_lz e) + 1).
+      { (* the chunk and the read-ahead lie inside the window *)
+        unfold l2_hist_ok, COMPRESSED_SIZE_MAX in *.
+        destruct Hh as [Hb0|Hk]; [|lia].
+        rewrite logical_pidx in Hchunk. unfold pidx in Hchunk. lia. }
+      rewrite ck_u32_ok by (unfold U32_MAX, I32_MAX in *; lia). cbn [obind e_lz unc_size read_ahead].
+      set (U := unc_size e + (read_ahead e + 1)).
+      set (TR := EvUnc U :: EvAbsorb (read_ahead e + 1) :: EvChunk (unc_size e) c (read_ahead e) :: tr).
+      eapply (okor_bind _ _ (fun r => fst (fst r) = mkEncd (e_lz e) (-1) U (rc_full e) (g_base e) /\
+                                     snd (fst r) = U /\ acct (snd r) = acct TR)).
+      { eapply okor_bind.
+        - apply (unc_copies_spec p (e_lz e) W (ei_lz _ _ _ _ I)); [unfold U; lia|].
+          rewrite Z2Nat.id by (apply Z.add_nonneg_nonneg; [apply Z.div_pos; unfold U, COMPRESSED_SIZE_MAX; lia|lia]).
+          unfold COMPRESSED_SIZE_MAX, U. lia.
+        - intros tr1 Acc. cbn [okor fst snd]. split; [reflexivity|]. split; [reflexivity|exact Acc]. }
+      intros [[e2 u2] tr1] (Ee & Eu & Acc). cbn [fst snd] in Ee, Eu, Acc. subst e2 u2.
+      injection Acc as E1 E2 E3 E4. unfold TR, U in *. cbn [sum_sym sum_fill sum_abs sum_chunk] in *.
+      rewrite ck_u32_ok by (unfold U32_MAX, I32_MAX, pidx in *; lia). cbn [obind].
+      rewrite ck_u64_ok by (unfold U64_MAX, UNC_BOUND, SYM_MAX, LZMA2_UNCOMPRESSED_LIMIT, I32_MAX, pidx in *; lia). cbn [obind okor].
+      cbn [l2_chunk l2_e l2_tr l2_pending e_lz g_base unc_size rc_full read_ahead].
+      split.
+      { constructor; cbn [l2_p l2_new l2_e l2_tr l2_pending l2_unc]; try assumption; try reflexivity; try lia.
+        constructor; unfold pidx, logical_pos in *; cbn [e_lz read_ahead unc_size g_base rc_full];
+          try assumption; try lia; try (split; assumption).
+        - exact (ei_lz _ _ _ _ I).
+        - intros Hp0. destruct (HU Hp0) as [K|[[K1 K2]|K]]; [left; exact K| |right; right; exact K].
+          right; left. split; [reflexivity|exact K2]. }
+      repeat split; try reflexivity; try lia; try (right; reflexivity).
+  Qed.
+
 End Oracle.
 
 (* =============================================================================================
